@@ -1,3 +1,71 @@
-//! C12 load part (lidt through E4) — filled in when SimCPU is available.
+//! C12/C14 load part: lidt / lgdt operands observed through E4.
 use crate::out::Rep;
-pub fn run(_r: &mut Rep) {}
+use crate::simcpu::{cpu, run_stepped, Ev};
+use x86_64::structures::gdt::{Descriptor, GlobalDescriptorTable};
+use x86_64::structures::idt::InterruptDescriptorTable;
+
+pub fn run(r: &mut Rep) {
+    crate::simcpu::init();
+    // several tables at different addresses (stack, heap, static)
+    let stack_idt = InterruptDescriptorTable::new();
+    let heap_idt: Box<InterruptDescriptorTable> = Box::new(InterruptDescriptorTable::new());
+    let static_idt: &'static InterruptDescriptorTable = Box::leak(Box::new(InterruptDescriptorTable::new()));
+    for (n, t) in [("stack", &stack_idt), ("heap", &*heap_idt), ("static", static_idt)] {
+        cpu().clear_events();
+        let _ = run_stepped(|| unsafe { t.load_unsafe() });
+        let ev = cpu().evs();
+        r.ev(true);
+        let base = t as *const _ as u64;
+        if !(ev.len() == 1 && matches!(ev[0], Ev::Lidt(4095, b, _) if b == base)) {
+            r.viol("C12|load_unsafe|lidt-operand-is-not-the-table-address-with-limit-4095", &format!("load {}", n), &format!("{:x?} expected Lidt(4095, {:#x})", ev, base));
+        }
+    }
+    cpu().clear_events();
+    let _ = run_stepped(|| static_idt.load());
+    let ev = cpu().evs();
+    r.ev(true);
+    if !(ev.len() == 1 && matches!(ev[0], Ev::Lidt(4095, b, _) if b == static_idt as *const _ as u64)) {
+        r.viol("C12|load|lidt-operand-is-not-the-table-address-with-limit-4095", "load static", &format!("{:x?}", ev));
+    }
+}
+
+pub fn run_gdt(r: &mut Rep) {
+    crate::simcpu::init();
+    fn one<const M: usize>(r: &mut Rep, appends: usize) {
+        let mut g: Box<GlobalDescriptorTable<M>> = Box::new(GlobalDescriptorTable::<M>::empty());
+        for i in 0..appends {
+            let used = g.entries().len();
+            if i % 3 == 2 && used + 2 <= M {
+                g.append(Descriptor::SystemSegment(0x0000_8900_0000_0067, 0));
+            } else if used + 1 <= M {
+                g.append(Descriptor::kernel_code_segment());
+            }
+        }
+        let gr: &GlobalDescriptorTable<M> = &g;
+        let base = gr.entries().as_ptr() as u64;
+        let limit = gr.limit();
+        let used = gr.entries().len();
+        cpu().clear_events();
+        let _ = run_stepped(|| unsafe { gr.load_unsafe() });
+        let ev = cpu().evs();
+        r.ev(true);
+        if limit as usize != 8 * used - 1 || !(ev.len() == 1 && matches!(ev[0], Ev::Lgdt(l, b, _) if l == limit && b == base)) {
+            r.viol("C14|load_unsafe|lgdt-operand-is-not-the-table-address-with-its-limit", &format!("gdtload {} {}", M, appends), &format!("{:x?} expected Lgdt({:#x}, {:#x})", ev, limit, base));
+        }
+    }
+    for n in 0..=7 {
+        one::<8>(r, n);
+    }
+    one::<1>(r, 0);
+    one::<3>(r, 2);
+    one::<9>(r, 5);
+    one::<8192>(r, 100);
+    let s: &'static GlobalDescriptorTable = Box::leak(Box::new({ let mut g = GlobalDescriptorTable::new(); g.append(Descriptor::kernel_data_segment()); g }));
+    cpu().clear_events();
+    let _ = run_stepped(|| s.load());
+    let ev = cpu().evs();
+    r.ev(true);
+    if !(ev.len() == 1 && matches!(ev[0], Ev::Lgdt(15, b, _) if b == s.entries().as_ptr() as u64)) {
+        r.viol("C14|load|lgdt-operand-is-not-the-table-address-with-its-limit", "gdtload static", &format!("{:x?}", ev));
+    }
+}
